@@ -62,6 +62,7 @@ class _File:
         self.enums = []             # [(fqn, closed_as_linker_sees, first_value_name)]
         self.uses_descriptor = False
         self.custom_opts = []       # [(kind, name, type)] options declared here
+        self.shadow = False         # the file declares a message named like the first component of its package
 
 
 class Program:
@@ -223,7 +224,7 @@ class _Gen:
         prefix of this file's package. All declared names are unique, so no nearer scope can capture the
         first component."""
         rng = self.rng
-        if not self.cfg.rel_names or rng.chance(1, 2):
+        if not self.cfg.rel_names or rng.chance(1, 2) or self.f.shadow or any(g.shadow for g in self.visible):
             return "." + fqn
         parts = fqn.split(".")
         cands = [fqn]
@@ -468,6 +469,10 @@ def gen_program(rng, cfg=None, nfiles=None, syntax=None):
                         allowed = ["EXPLICIT", "IMPLICIT", "FIELD_PRESENCE_UNKNOWN"]
                     f.features[name] = _pick_feature(rng, cfg, name, allowed)
         body_start = len(f.lines)
+        # a message named like the first package component, mirroring the package path inside: then a fully
+        # qualified name WITHOUT the leading dot would be captured by it, so such files (and their importers)
+        # spell every reference with the leading dot
+        f.shadow = bool(pkg) and cfg.rel_names and rng.chance(1, 6)
         # custom options
         if cfg.custom_options and rng.chance(1, 3):
             f.uses_descriptor = True
@@ -488,6 +493,14 @@ def gen_program(rng, cfg=None, nfiles=None, syntax=None):
             g.gen_extend(0)
         if cfg.services and rng.chance(1, 3):
             g.gen_service()
+        if f.shadow:
+            tops = [m[0] for m in f.msgs if m[0].rsplit(".", 1)[0] == pkg]
+            if tops:
+                comps = pkg.split(".")
+                target = rng.choice(tops).rsplit(".", 1)[1]
+                lab = "" if syn != "proto2" else "optional "
+                opening = "".join("message %s { " % c for c in comps)
+                g.emit(0, "%smessage %s { %sint32 shadow_marker = 1; } %s" % (opening, target, lab, "} " * len(comps)))
         head = []
         if syn == "editions":
             head.append('edition = "2023";')
@@ -527,4 +540,20 @@ CORPUS_C04 = [
     'syntax = "proto2";\nmessage M {\n  required int32 a = 1;\n  optional group G = 2 { optional int32 x = 1; }\n  repeated group H = 3 { required M m = 1; }\n  repeated int32 p = 4 [packed = true];\n  repeated string q = 5;\n  optional bytes d = 6 [default = "\\x00\\xff"];\n  optional E e = 7 [default = B];\n  oneof o { int32 oi = 8; group OG = 9 { optional int32 y = 1; } }\n  extensions 100 to 200;\n  extend M { optional int32 ext1 = 100; repeated sint64 ext2 = 101 [packed = true]; optional M ext3 = 102; }\n}\nenum E { A = 1; B = 2; }\nextend M { repeated E ext4 = 103; }\n',
     # overrides at every legal level, four levels deep
     'edition = "2023";\noption features.field_presence = IMPLICIT;\noption features.repeated_field_encoding = EXPANDED;\noption features.enum_type = CLOSED;\noption features.json_format = LEGACY_BEST_EFFORT;\nmessage A {\n  option features.json_format = ALLOW;\n  message B {\n    message C {\n      option features.json_format = LEGACY_BEST_EFFORT;\n      message D {\n        int32 x = 1;\n        int32 y = 2 [features.field_presence = EXPLICIT];\n        repeated int32 z = 3;\n        repeated int32 w = 4 [features.repeated_field_encoding = PACKED];\n        enum E { option features.enum_type = OPEN; Z = 0; }\n        enum F { F1 = 1; }\n        E e = 5;\n        F f = 6 [features.field_presence = LEGACY_REQUIRED];\n        D d = 7 [features.message_encoding = DELIMITED];\n        string s = 8 [features.utf8_validation = NONE];\n      }\n    }\n  }\n}\n',
+]
+
+
+# hand-written corpus for C10 / C09: names that shadow each other, so that how a reference is spelled matters
+CORPUS_SHADOW = [
+    # a message named like the package: .a.M is a.M, but a.M (no dot) from inside the package is a.a.M
+    'syntax = "proto2";\npackage a;\nmessage a { message M { optional int32 inner = 1; } }\nmessage M { optional int32 outer = 1; }\n'
+    'message X { optional .a.M abs = 1; optional a.M rel = 2; optional M simple = 3; optional .a.a.M abs_inner = 4; }\n',
+    # a field named like a type: an unqualified reference skips the non-type and finds the outer type
+    'syntax = "proto2";\npackage p;\nmessage T { optional int32 x = 1; }\nmessage M { optional T T = 1; optional T u = 2; optional .p.T v = 3; '
+    'message N { optional T w = 1; optional M.N self = 2; optional p.M up = 3; } }\n',
+    # the same simple name at three depths
+    'syntax = "proto3";\npackage q.r;\nmessage A { message A { message A { A a0 = 1; .q.r.A a1 = 2; q.r.A.A a2 = 3; r.A a3 = 4; } A b0 = 1; } A c0 = 1; A.A c1 = 2; }\n',
+    # enums and messages, extension scopes, service scope
+    'syntax = "proto2";\npackage s;\nenum K { K0 = 0; }\nmessage H { enum K { K1 = 1; } optional K k = 1; optional .s.K gk = 2; extensions 100 to 200; '
+    'extend H { optional K ek = 100; optional s.K egk = 101; } }\nextend s.H { optional H.K tk = 102; }\nservice Svc { rpc Do(H) returns (s.H); rpc Re(.s.H) returns (H); }\n',
 ]
